@@ -50,7 +50,11 @@ func TestVerifDriverC02(t *testing.T) {
 			fmt.Printf("DRIVER-FAIL: "+format+"\n", a...)
 		}
 	}
-	deadline := time.Now().Add(6 * time.Second)
+	budget := 6 * time.Second
+	if os.Getenv("VERIF_DRIVER_REASON") == "thorough" {
+		budget = 25 * time.Second // thorough tier
+	}
+	deadline := time.Now().Add(budget)
 	trials := 0
 	for trial := 0; time.Now().Before(deadline) && fails == 0; trial++ {
 		trials++
